@@ -40,7 +40,12 @@ class C18(hc.PProp):
             url['sizes'] = [size]; url['body_pace'] = pace
             if faulty and rng.random() < 0.7:
                 url['abort'] = rng.choice(['close', 'reset']); url['abort_frac'] = rng.random()
-            reval = not faulty and rng.random() < 0.4
+            if not faulty and rng.random() < 0.25:
+                # shareable but already stale on arrival, delivered in one segment: the collapsed clients are called back for a finished entry
+                size = min(size, 3000)
+                url.update({'sizes': [size], 'framing': 'cl', 'body_pace': 0, 'one_write': True, 'cc': rng.choice(['public, max-age=0, must-revalidate', 'no-cache', 'max-age=0'])})
+                url.pop('abort', None)
+            reval = not faulty and not url.get('one_write') and rng.random() < 0.4
             if reval:
                 # second stratum: the cached object goes stale and a burst arrives while its revalidation (answered 304 after a delay) is in progress
                 size = min(size, 5000); pace = 0
